@@ -210,7 +210,7 @@ def gen_from_graph(g, rng, npaths, cover):
             act, args, cur = rng.choice(es)
             p.append((act, args))
         paths.append(p)
-    ops, base = [], 0
+    chunks, ops, base = [], [], 0
     for p in paths:
         base += 10
         live = {}
@@ -231,7 +231,12 @@ def gen_from_graph(g, rng, npaths, cover):
                 raise core.MachineryError("unknown action %s in the Closures graph" % act)
         for c in sorted(live, reverse=rng.random() < 0.5):
             ops.append(["drop", c])
-    return ops, len(paths), nedges
+        if len(ops) >= 15000:           # one session (process) per 15 000 operations
+            chunks.append(ops)
+            ops = []
+    if ops:
+        chunks.append(ops)
+    return chunks, len(paths), nedges
 
 
 def run_session(cfg, ops, careful=False):
@@ -395,7 +400,8 @@ def run(ctx):
     bounds = block_boundaries(page, slot, peak)
     sessions = []          # (kind, ops, predictable)
     gops, npaths, nedges = gen_from_graph(g, rng, 150 if quick else 1500, 600 if quick else None)
-    sessions.append(("model-paths", gops, True))
+    for ch in gops:
+        sessions.append(("model-paths", ch, True))
     for i in range(3 if quick else 10):
         sessions.append(("random", gen_random(rng, 2500 if quick else 12000, rng.choice([80, 240, 460, 800]),
                                               bounds, False), True))
@@ -405,7 +411,7 @@ def run(ctx):
                                                              bounds, True), False))
     ctx.cov["graph"] = {"transitions": nedges, "paths_replayed": npaths}
     phase("generate")
-    res = life_common.parallel({i: (run_session, (cfg, s[1])) for i, s in enumerate(sessions)})
+    res = life_common.run_limited({i: (run_session, (cfg, s[1])) for i, s in enumerate(sessions)}, 8)
     phase("execute")
     ideals, impls, addrs, pidx, srcs = [], [], [], [], []
     for i, (kind, ops, predictable) in enumerate(sessions):
@@ -422,8 +428,19 @@ def run(ctx):
             ctx.violation("died:%s" % op[0], "the process was killed by signal %s during %r" % (death["signal"], op),
                           {"kind": kind, "ops": ops[:(death["op_index"] or 0) + 1]})
         ctx.case((kind, i), n=len(events))
-    out = life_common.parallel({"ideal": (validate_ideal, (ctx, ideals)),
-                                "impl": (predict, (ctx, impls, page, slot))})
+    jobs = {}
+    ich = life_common.chunks_by_events(ideals, 80000, 1000)
+    for ci, (base, ch) in enumerate(ich):
+        jobs["ideal%d" % ci] = (validate_ideal, (ctx, ch))
+    pch = life_common.chunks_by_events(impls, 80000, 1000)
+    for ci, (base, ch) in enumerate(pch):
+        jobs["impl%d" % ci] = (predict, (ctx, ch, page, slot))
+    res2 = life_common.run_limited(jobs, 4)
+    out = {"ideal": {}, "impl": {}}
+    for ci, (base, ch) in enumerate(ich):
+        out["ideal"].update({base + k: v for k, v in res2["ideal%d" % ci].items()})
+    for ci, (base, ch) in enumerate(pch):
+        out["impl"].update({base + k: v for k, v in res2["impl%d" % ci].items()})
     phase("tlc-validate")
     nev = 0
     for i, ideal in enumerate(ideals):
